@@ -348,6 +348,21 @@ func (in *Interp) load(st *State, a Val) Val {
 	if v, ok := st.mem[Ptr{p.Base, ""}.Key()]; ok && path != "" {
 		return Sym{Op: "sel", Name: path, Args: []Val{v}}
 	}
+	// a struct whose fields were stored one by one: snapshot
+	var fields []string
+	for mk := range st.mem {
+		if strings.HasPrefix(mk, k+".") {
+			fields = append(fields, mk)
+		}
+	}
+	if len(fields) > 0 {
+		sort.Strings(fields)
+		sv := Sym{Op: "struct"}
+		for _, f := range fields {
+			sv.Args = append(sv.Args, Sym{Op: "field", Name: strings.TrimPrefix(f, k), Args: []Val{st.mem[f]}})
+		}
+		return sv
+	}
 	ep := st.epoch
 	if strings.HasPrefix(p.Base, "loc#") {
 		ep = 0
@@ -406,6 +421,12 @@ func binop(op token.Token, a, b Val) Val {
 			}
 		case token.LAND, token.LOR:
 			return Const{V: constant.BinaryOp(ca.V, op, cb.V)}
+		}
+	}
+	if op == token.EQL || op == token.NEQ {
+		isIface := func(v Val) bool { s, ok := v.(Sym); return ok && s.Op == "iface" }
+		if (isIface(a) && okb && cb.V == nil) || (isIface(b) && oka && ca.V == nil) {
+			return MkBool(op == token.NEQ)
 		}
 	}
 	if oka && okb && (op == token.EQL || op == token.NEQ) && (ca.V == nil || cb.V == nil) {
@@ -514,7 +535,8 @@ func (in *Interp) runFrom(fr *frame, b *ssa.BasicBlock, start int, st *State, de
 				}
 				fr.env[x] = Sym{Op: "conv", Name: types.TypeString(x.Type(), func(p *types.Package) string { return p.Name() }), Args: []Val{a}}
 			case *ssa.MakeInterface:
-				fr.env[x] = in.get(fr, x.X)
+				// an interface made from a concrete value is never nil, whatever it holds
+				fr.env[x] = Sym{Op: "iface", Args: []Val{in.get(fr, x.X)}}
 			case *ssa.ChangeInterface:
 				fr.env[x] = in.get(fr, x.X)
 			case *ssa.MakeClosure:
@@ -644,6 +666,9 @@ func (in *Interp) runFrom(fr *frame, b *ssa.BasicBlock, start int, st *State, de
 				}
 			case *ssa.TypeAssert:
 				a := in.get(fr, x.X)
+				if s, ok := a.(Sym); ok && s.Op == "iface" && !x.CommaOk {
+					a = s.Args[0]
+				}
 				tn := types.TypeString(x.AssertedType, func(p *types.Package) string { return p.Name() })
 				if x.CommaOk {
 					fr.env[x] = Tuple{[]Val{Sym{Op: "assert", Name: tn, Args: []Val{a}}, Sym{Op: "assertok", Name: tn, Args: []Val{a}}}}
